@@ -4,7 +4,7 @@
 # without it and fails with it, (3) the workspace test suite (stable baseline) still passes with it.
 set -u
 D=$(realpath "$1"); ID=$(basename "$D")
-WT=/tmp/sv_$ID; export CARGO_TARGET_DIR=/tmp/sv_target; export CARGO_NET_OFFLINE=true
+WT=${SV_WT:-/tmp/sv}_$ID; export CARGO_TARGET_DIR=${SV_TARGET:-/tmp/sv_target}; export CARGO_NET_OFFLINE=true
 PKG=$(python3 -c "import json;print(json.load(open('$D/meta.json'))['package'])")
 CDIR=$(python3 -c "import json;print(json.load(open('$D/meta.json'))['crate_dir'])")
 # features the demo needs (taken from meta.json's test_command, e.g. --features rle)
